@@ -193,6 +193,16 @@ def quadrature_table(fn_node):
                                 b_ = u_.value
                                 if (isinstance(b_, ast.Name) and b_.id in loopvars) or (isinstance(b_, ast.Subscript) and isinstance(b_.value, ast.Name) and b_.value.id == name_):
                                     as_column = True
+                        for u_ in ast.walk(nf):
+                            # table.T[:, np.newaxis, :] against corners[:, :, :, np.newaxis], summed over the corner axis: entry
+                            # (point, corner) of the table weighs that corner in that point - the same rows, applied by broadcasting
+                            if isinstance(u_, ast.Subscript) and isinstance(u_.value, ast.Attribute) and u_.value.attr == "T" and isinstance(u_.value.value, ast.Name) \
+                                    and u_.value.value.id == name_ and isinstance(u_.slice, ast.Tuple) and len(u_.slice.elts) == 3 \
+                                    and isinstance(u_.slice.elts[0], ast.Slice) and ast.unparse(u_.slice.elts[1]) in ("np.newaxis", "None", "numpy.newaxis") \
+                                    and isinstance(u_.slice.elts[2], ast.Slice) \
+                                    and any(isinstance(c_, ast.Call) and ast.unparse(c_.func).split(".")[-1] == "sum" and any(
+                                        k_.arg == "axis" and isinstance(k_.value, ast.Constant) and k_.value.value == 1 for k_ in c_.keywords) for c_ in ast.walk(nf)):
+                                as_column = True
                         if as_column:
                             v = [[[x] for x in r] if len(set(r)) != 1 else r for r in v]       # the ragged form of the same table
                         else:
